@@ -30,7 +30,10 @@ def ev_id(name):
 def sid(name):
     if isinstance(name, enum.Enum):
         name = name.name
-    return int(name[1:])
+    try:
+        return int(name[1:])
+    except (TypeError, ValueError):
+        return 'unexpected:%r' % (name,)
 
 
 # ---------------------------------------------------------------------------------------------
@@ -455,8 +458,16 @@ def enc_oarg(a):
     return o
 
 
+def selectors_fixed():
+    """Once finding F-C13-remove-selector is marked fixed in known_findings.json the model is told that
+    Enum / State selectors of remove_transition count as the names they stand for."""
+    return any(f.get('id') == 'F-C13-remove-selector' and f.get('status') == 'fixed'
+               for f in common.load_known_findings())
+
+
 def enc_variant(case, variant):
     o = case['opts']
+    by_name = selectors_fixed()
     out = [int(o['auto']), _opt3(o['mign'])]
     for k in ('prepare_event', 'before_sc', 'after_sc', 'finalize', 'on_exception', 'on_final'):
         out += _l(o[k])
@@ -492,7 +503,7 @@ def enc_variant(case, variant):
             def sel(x, rep):
                 if x is None:
                     return [0]
-                return [1, len(x)] + sum(([s, int(rep == 'str')] for s in x), [])
+                return [1, len(x)] + sum(([s, int(rep == 'str' or by_name)] for s in x), [])
             ops.append([3, st['ev']] + sel(st['src'], st['srcrep']) + sel(st['dst'], st['dstrep']))
         elif k == 'model':
             pass
@@ -590,7 +601,7 @@ def cb_ident(f):
         return f.cid
     if isinstance(f, str):
         return int(f.rsplit('_', 1)[1])
-    raise common.MachineryError('unexpected callback object %r' % (f,))
+    return 'unexpected:%r' % (f,)       # shows up as a structural difference, never equal to an id
 
 
 class Run13(flat.FlatRun):
